@@ -51,6 +51,10 @@ SOFTWARE, EVEN IF ADVISED OF THE POSSIBILITY OF SUCH DAMAGE.
 #include <yara/strutils.h>
 #include <yara/utils.h>
 
+#ifdef YARA_VERIF
+#include <yara/verif.h>
+#endif
+
 static void _yr_compiler_default_include_free(
     const char* callback_result_ptr,
     void* user_data)
@@ -266,6 +270,12 @@ YR_API int yr_compiler_create(YR_COMPILER** compiler)
   if (result == ERROR_SUCCESS)
     result = yr_hash_table_create(10000, &new_compiler->sz_table);
 
+#ifdef YARA_VERIF
+  if (result == ERROR_SUCCESS && yr_verif_arena_initial_size != 0)
+    result = yr_arena_create(
+        YR_NUM_SECTIONS, yr_verif_arena_initial_size, &new_compiler->arena);
+  else
+#endif
   if (result == ERROR_SUCCESS)
     result = yr_arena_create(YR_NUM_SECTIONS, 1048576, &new_compiler->arena);
 
